@@ -61,54 +61,83 @@ def check(ctx):
 
 def r07_1(ctx, g):
     wf = g.write_gfa
-    # literal L emitters: "\t".join(["L", n1, o1, n2, o2, overlap] + tags)
-    emitters = []
-    for c in walk_own(wf.node):
-        if isinstance(c, ast.Call) and isinstance(c.func, ast.Attribute) and c.func.attr == "join" and c.args:
-            items = None
-            a = c.args[0]
-            if isinstance(a, ast.BinOp) and isinstance(a.left, ast.List):
-                items = a.left.elts
-            elif isinstance(a, ast.List):
-                items = a.elts
-            if items and const_value(items[0]) == "L" and len(items) >= 6:
-                emitters.append((c, items))
-    ctx.require_count("R07.1", len(emitters), 4, wf.where(), "literal L-line emitters of the writer")
+    # L emitters, path by path through each per-neighbour loop: "\t".join(["L", n1, o1, n2, o2, overlap] + tags) where the two
+    # orientation items are literals, or names bound to a literal on that path / once in the function
+    from ..core import local_defs
+
+    ld = local_defs(wf.node)
+
+    def join_items(node):
+        for c in ast.walk(node):
+            if isinstance(c, ast.Call) and isinstance(c.func, ast.Attribute) and c.func.attr == "join" and c.args:
+                a = c.args[0]
+                items = a.left.elts if isinstance(a, ast.BinOp) and isinstance(a.left, ast.List) else (a.elts if isinstance(a, ast.List) else None)
+                if items and const_value(items[0]) == "L" and len(items) >= 6:
+                    return c, items
+        return None
+
+    loops = [l for l in walk_own(wf.node) if isinstance(l, ast.For) and norm(l.iter).endswith((".start", ".end"))]
     writer = {}
     bad = None
-    for c, items in emitters:
-        o1, o2 = const_value(items[2]), const_value(items[4])
-        n1, n2, ov = norm(items[1]), norm(items[3]), norm(items[5])
-        # which adjacency set is iterated: innermost enclosing for-loop over <...>.start / .end
-        loop = None
-        for l in walk_own(wf.node):
-            if isinstance(l, ast.For) and any(x is c for x in ast.walk(l)) and norm(l.iter).endswith((".start", ".end")):
-                loop = l
-        if loop is None:
-            raise AnalysisError("R07.1", wf.where(c), "L emitter is not inside a loop over an adjacency set")
+    n_emit = 0
+    for loop in loops:
         side1 = 0 if norm(loop.iter).endswith(".start") else 1
         nb = norm(loop.target)
-        # far side: established by the guards `nb[1] == 0`
-        side2 = None
-        for t, pol in guards_of(loop, stmt_of(loop, c)):
-            s, sp = canon_test(t, pol)
-            if s == f"{nb}[1] == 0":
-                side2 = 0 if sp else 1
-            elif s == f"{nb}[1] == 1":
-                side2 = 1 if sp else 0
-        if side2 is None:
-            bad = (c, "the emitter is not selected by a test of the neighbour's side")
-            break
-        if (side1, side2) in writer:
-            bad = (c, f"two emitters for the side pair {(side1, side2)}")
-            break
-        writer[(side1, side2)] = (o1, o2)
-        # the nodes written are the iterated node and the neighbour, the overlap is the neighbour's
         own = norm(loop.iter).rsplit(".", 1)[0]
-        ok_nodes = n2 in (f"str({nb}[0])", f"{nb}[0]") and own.endswith(f"[{n1[4:-1] if n1.startswith('str(') else n1}]")
-        if not ok_nodes:
-            bad = (c, f"the L line names `{n1}` and `{n2}`, not the iterated node and its neighbour")
+        for p in enum_paths(loop.body, rule="R07.1", where=wf.where(loop)):
+            em = [(e, join_items(e.node)) for e in p.events if e.kind == "stmt" and join_items(e.node) is not None]
+            if not em:
+                continue
+            if len(em) > 1:
+                bad = (em[0][1][0], "two L lines are built for one adjacency entry on one path")
+                break
+            n_emit += 1
+            ev, (c, items) = em[0]
+            bound = {}
+            for e in p.events:
+                if e is ev:
+                    break
+                if e.kind == "stmt" and isinstance(e.node, ast.Assign) and len(e.node.targets) == 1 and isinstance(e.node.targets[0], ast.Name):
+                    bound[e.node.targets[0].id] = e.node.value
+
+            def lit(x):
+                if isinstance(x, ast.Constant):
+                    return x.value
+                if isinstance(x, ast.Name):
+                    d = bound.get(x.id)
+                    if d is None:
+                        ds = [v for v in ld.get(x.id, []) if v is not None]
+                        d = ds[0] if len(ds) == 1 else None
+                    if isinstance(d, ast.Constant):
+                        return d.value
+                return None
+
+            o1, o2 = lit(items[2]), lit(items[4])
+            n1, n2 = norm(items[1]), norm(items[3])
+            side2 = None
+            for e in p.events:
+                if e.kind == "test":
+                    s_, sp = canon_test(e.node, e.pol)
+                    if s_ == f"{nb}[1] == 0":
+                        side2 = 0 if sp else 1
+                    elif s_ == f"{nb}[1] == 1":
+                        side2 = 1 if sp else 0
+            if o1 is None or o2 is None:
+                raise AnalysisError("R07.1", wf.where(c), "the orientation signs of an L line are not literals on this path")
+            if side2 is None:
+                bad = (c, "the emitter is not selected by a test of the neighbour's side")
+                break
+            if writer.get((side1, side2), (o1, o2)) != (o1, o2):
+                bad = (c, f"two different spellings for the side pair {(side1, side2)}")
+                break
+            writer[(side1, side2)] = (o1, o2)
+            ok_nodes = n2 in (f"str({nb}[0])", f"{nb}[0]") and own.endswith(f"[{n1[4:-1] if n1.startswith('str(') else n1}]")
+            if not ok_nodes:
+                bad = (c, f"the L line names `{n1}` and `{n2}`, not the iterated node and its neighbour")
+                break
+        if bad:
             break
+    ctx.require_count("R07.1", n_emit, 4, wf.where(), "literal L-line emitters of the writer")
     if bad is None:
         for (o1, o2), sides in g.edir.items():
             back = writer.get(sides)
@@ -524,9 +553,26 @@ def r07_10(ctx, g):
     ov_read = [st for st in walk_own(rg.node) if isinstance(st, ast.Assign) and isinstance(st.targets[0], ast.Subscript) and const_value(st.targets[0].slice) == 4 and norm(st.value).startswith("int(")]
     ok_r = len(ov_read) == 1 and norm(ov_read[0].value) == f"int({norm(ov_read[0].targets[0])}[:-1])"
     wf = g.write_gfa
-    ov_w = [st for st in walk_own(wf.node) if isinstance(st, ast.Assign) and norm(st.targets[0]) == "overlap"]
-    ok_w = len(ov_w) == 2 and all(_re.fullmatch(r"str\((\w+)\[2\]\) \+ 'M'", norm(st.value)) for st in ov_w)
-    ctx.check(ok_r and ok_w, "R07.10", wf.where(), "link overlaps round-trip: read as the integer before the trailing letter, written as str(overlap) + 'M' of the stored adjacency entry", key_of(wf, f"overlap:{[norm(s.value) for s in ov_read]}:{[norm(s.value) for s in ov_w]}"))
+    # the sixth item of every L line built in a per-neighbour loop: str(<neighbour>[2]) + "M", directly or through a local
+    ov_w = []
+    ok_w = True
+    for lp in [l for l in walk_own(wf.node) if isinstance(l, ast.For) and norm(l.iter).endswith((".start", ".end"))]:
+        nb = norm(lp.target)
+        want = f"str({nb}[2]) + 'M'"
+        for c in ast.walk(lp):
+            if isinstance(c, ast.Call) and isinstance(c.func, ast.Attribute) and c.func.attr == "join" and c.args:
+                a = c.args[0]
+                items = a.left.elts if isinstance(a, ast.BinOp) and isinstance(a.left, ast.List) else (a.elts if isinstance(a, ast.List) else None)
+                if items and const_value(items[0]) == "L" and len(items) >= 6:
+                    it5 = items[5]
+                    txt = norm(it5)
+                    if isinstance(it5, ast.Name):
+                        ds = [st for st in walk_stmts(lp.body) if isinstance(st, ast.Assign) and norm(st.targets[0]) == it5.id]
+                        txt = norm(ds[0].value) if len(ds) == 1 else txt
+                    ov_w.append(txt)
+                    ok_w = ok_w and txt == want
+    ok_w = ok_w and len(ov_w) >= 2
+    ctx.check(ok_r and ok_w, "R07.10", wf.where(), "link overlaps round-trip: read as the integer before the trailing letter, written as str(overlap) + 'M' of the stored adjacency entry", key_of(wf, f"overlap:{[norm(s.value) for s in ov_read]}:{sorted(set(ov_w))}"))
     # record letters: the reader dispatches on 'S' and 'L' only
     tests = sorted({const_value(c.args[0]) for c in walk_own(rg.node) if isinstance(c, ast.Call) and isinstance(c.func, ast.Attribute) and c.func.attr == "startswith" and c.args})
     ctx.check(tests == ["L", "S"], "R07.10", rg.where(), "the reader takes S lines as segments and L lines as links", key_of(rg, f"letters:{tests}"))
